@@ -16,6 +16,7 @@ import (
 	"fmt"
 	"math"
 	"math/big"
+	"math/bits"
 	"math/rand"
 	"os"
 	"regexp"
@@ -72,6 +73,73 @@ type vc03Val struct {
 	style int
 	pat   []vc03PTok
 	rat   *big.Rat
+	num   *vc03Num
+}
+
+// vc03Num is an exact rational with an allocation-free comparison for the common case
+// (numerator and denominator fit in 63 bits).
+type vc03Num struct {
+	r     *big.Rat
+	n, d  int64
+	small bool
+}
+
+func vc03MkNum(r *big.Rat) *vc03Num {
+	x := &vc03Num{r: r}
+	if r.Num().IsInt64() && r.Denom().IsInt64() && r.Num().Int64() != math.MinInt64 {
+		x.n, x.d, x.small = r.Num().Int64(), r.Denom().Int64(), true
+	}
+	return x
+}
+
+func vc03NumCmp(a, b *vc03Num) int {
+	if !a.small || !b.small {
+		return a.r.Cmp(b.r)
+	}
+	sa, sb := 0, 0
+	switch {
+	case a.n > 0:
+		sa = 1
+	case a.n < 0:
+		sa = -1
+	}
+	switch {
+	case b.n > 0:
+		sb = 1
+	case b.n < 0:
+		sb = -1
+	}
+	if sa != sb {
+		if sa < sb {
+			return -1
+		}
+		return 1
+	}
+	if sa == 0 {
+		return 0
+	}
+	ua, ub := uint64(a.n), uint64(b.n)
+	if sa < 0 {
+		ua, ub = uint64(-a.n), uint64(-b.n)
+	}
+	h1, l1 := bits.Mul64(ua, uint64(b.d))
+	h2, l2 := bits.Mul64(ub, uint64(a.d))
+	c := 0
+	switch {
+	case h1 != h2:
+		if h1 < h2 {
+			c = -1
+		} else {
+			c = 1
+		}
+	case l1 != l2:
+		if l1 < l2 {
+			c = -1
+		} else {
+			c = 1
+		}
+	}
+	return c * sa
 }
 
 const (
@@ -108,7 +176,7 @@ func vc03Int(s string) vc03Val {
 	if !ok {
 		panic("bad int " + s)
 	}
-	return vc03Val{kind: vc03KInt, text: s, rat: r}
+	return vc03Val{kind: vc03KInt, text: s, rat: r, num: vc03MkNum(r)}
 }
 
 func vc03Dec(s string) vc03Val {
@@ -116,7 +184,7 @@ func vc03Dec(s string) vc03Val {
 	if !ok {
 		panic("bad dec " + s)
 	}
-	return vc03Val{kind: vc03KDec, text: s, rat: r}
+	return vc03Val{kind: vc03KDec, text: s, rat: r, num: vc03MkNum(r)}
 }
 
 func vc03Str(s string, style int) vc03Val { return vc03Val{kind: vc03KStr, text: s, style: style} }
@@ -316,7 +384,7 @@ func vc03LeavesOf(n *vc03Node, out []*vc03Node) []*vc03Node {
 
 type vc03Cell struct {
 	num bool
-	n   *big.Rat
+	n   *vc03Num
 	s   string
 }
 
@@ -324,7 +392,7 @@ type vc03Row map[string]vc03Cell
 
 func vc03CmpVal(c vc03Cell, v vc03Val) int {
 	if c.num {
-		return c.n.Cmp(v.rat)
+		return vc03NumCmp(c.n, v.num)
 	}
 	return strings.Compare(c.s, v.text)
 }
@@ -580,6 +648,7 @@ type vc03SQL struct {
 	k       int
 	s       string // column name / string constant / operator
 	n       *big.Rat
+	num     *vc03Num
 	idx     int
 	a, b, c *vc03SQL
 	list    []*vc03SQL
@@ -773,7 +842,8 @@ func (p *vc03Parser) parseUnary() (*vc03SQL, error) {
 		}
 		if e.k == vc03SNum {
 			if t.s == "-" {
-				return &vc03SQL{k: vc03SNum, n: new(big.Rat).Neg(e.n), s: "-" + e.s}, nil
+				neg := new(big.Rat).Neg(e.n)
+				return &vc03SQL{k: vc03SNum, n: neg, num: vc03MkNum(neg), s: "-" + e.s}, nil
 			}
 			return e, nil
 		}
@@ -807,7 +877,7 @@ func (p *vc03Parser) parsePrimary() (*vc03SQL, error) {
 		if !ok {
 			return nil, fmt.Errorf("bad numeric constant %q", t.s)
 		}
-		return &vc03SQL{k: vc03SNum, n: r, s: t.s}, nil
+		return &vc03SQL{k: vc03SNum, n: r, num: vc03MkNum(r), s: t.s}, nil
 	case vc03TParam:
 		return &vc03SQL{k: vc03SParam, idx: t.idx}, nil
 	}
@@ -837,7 +907,7 @@ func vc03SQLConsts(e *vc03SQL, nums *[]*big.Rat, strs *[]string) {
 type vc03Sv struct {
 	t int8 // 0 bool, 1 number, 2 string
 	b bool
-	n *big.Rat
+	n *vc03Num
 	s string
 }
 
@@ -905,7 +975,7 @@ func vc03CompareSv(a, b vc03Sv, op string) (int, error) {
 		return 0, fmt.Errorf("operator does not exist: %s %s %s", vc03TypeName(a), op, vc03TypeName(b))
 	}
 	if a.t == 1 {
-		return a.n.Cmp(b.n), nil
+		return vc03NumCmp(a.n, b.n), nil
 	}
 	return strings.Compare(a.s, b.s), nil
 }
@@ -924,7 +994,7 @@ func vc03EvalSQL(e *vc03SQL, row vc03Row, params []vc03Sv) (vc03Sv, error) {
 	case vc03SStr:
 		return vc03Sv{t: 2, s: e.s}, nil
 	case vc03SNum:
-		return vc03Sv{t: 1, n: e.n}, nil
+		return vc03Sv{t: 1, n: e.num}, nil
 	case vc03SParam:
 		if e.idx >= len(params) {
 			return vc03Sv{}, fmt.Errorf("there is no parameter $%d", e.idx+1)
@@ -939,7 +1009,7 @@ func vc03EvalSQL(e *vc03SQL, row vc03Row, params []vc03Sv) (vc03Sv, error) {
 			return v, fmt.Errorf("operator does not exist: unary sign on %s", vc03TypeName(v))
 		}
 		if e.k == vc03SNeg {
-			return vc03Sv{t: 1, n: new(big.Rat).Neg(v.n)}, nil
+			return vc03Sv{t: 1, n: vc03MkNum(new(big.Rat).Neg(v.n.r))}, nil
 		}
 		return v, nil
 	case vc03SAnd, vc03SOr:
@@ -1196,16 +1266,16 @@ func vc03Probes(root *vc03Node, sqlNums []*big.Rat, sqlStrs []string) vc03ProbeS
 			}
 			one := big.NewRat(1, 1)
 			half := big.NewRat(1, 2)
-			cells = append(cells, vc03Cell{num: true, n: new(big.Rat).Sub(uniq[0], one)})
+			cells = append(cells, vc03Cell{num: true, n: vc03MkNum(new(big.Rat).Sub(uniq[0], one))})
 			for i, r := range uniq {
-				cells = append(cells, vc03Cell{num: true, n: r})
+				cells = append(cells, vc03Cell{num: true, n: vc03MkNum(r)})
 				if i+1 < len(uniq) {
 					mid := new(big.Rat).Add(r, uniq[i+1])
 					mid.Mul(mid, half)
-					cells = append(cells, vc03Cell{num: true, n: mid})
+					cells = append(cells, vc03Cell{num: true, n: vc03MkNum(mid)})
 				}
 			}
-			cells = append(cells, vc03Cell{num: true, n: new(big.Rat).Add(uniq[len(uniq)-1], one)})
+			cells = append(cells, vc03Cell{num: true, n: vc03MkNum(new(big.Rat).Add(uniq[len(uniq)-1], one))})
 		} else {
 			seen := map[string]bool{}
 			add := func(s string) {
@@ -1266,7 +1336,7 @@ func vc03ShowRow(row vc03Row) string {
 	for _, k := range names {
 		c := row[k]
 		if c.num {
-			parts = append(parts, k+"="+c.n.FloatString(6))
+			parts = append(parts, k+"="+c.n.r.FloatString(6))
 		} else {
 			parts = append(parts, k+"="+strconv.Quote(c.s))
 		}
@@ -1851,7 +1921,8 @@ func vc03LeafFeatures(l *vc03Node) []string {
 		lo, hi := l.vals[0], l.vals[1]
 		oneOpen := (lo.kind == vc03KOpen) != (hi.kind == vc03KOpen)
 		if !l.num {
-			if lo.kind == vc03KStr && lo.text == "*" && hi.kind == vc03KStr && hi.text == "*" {
+			starOrOpen := func(v vc03Val) bool { return v.kind == vc03KOpen || (v.kind == vc03KStr && v.text == "*") }
+			if starOrOpen(lo) && starOrOpen(hi) && (lo.kind == vc03KStr || hi.kind == vc03KStr) {
 				add("quoted-star-bounds-read-as-open")
 			}
 			// string ranges are always rendered as BETWEEN: the brackets are never consulted
